@@ -1,2 +1,71 @@
-(* props/C09.v — placeholder until the theorems of this property are added. *)
-From Prophy Require Import Bytes Schema Layout Wire PcModel.
+(* props/C09.v — the generated raw C++ swap converts a whole foreign-endian message to native in place (model level).
+   What is proved, about the model CppSwap.cpp_swap of the generated `prophy::swap<T>` (tied to the compiled code by
+   checks/C09.py, which runs the model inside Coq on every buffer it hands to the compiled swap and compares buffer,
+   returned offset and guard bytes): for every legal struct or union type without an unlimited part that is outside
+   the known finding KF-C ([kfc_free]), every well-typed value and every buffer holding the value's foreign-endian
+   canonical encoding at an offset aligned for the type — with arbitrary bytes before and after —, the swap rewrites
+   exactly the message into its native-endian canonical encoding, leaves all other bytes as they were and returns
+   the offset one past the (aligned) end of the message.
+   Not proved: the clause about messages with a greedy tail (only members before the unlimited member are swapped);
+   the check leaves unlimited roots out as well. [C09_kfc_witness] shows that the hypothesis [kfc_free] cannot be
+   dropped: on the schema of KF-C the model — like the compiled code — returns a wrong end. *)
+From Coq Require Import ZArith List Bool Lia.
+From Prophy Require Import Bytes Schema Layout Wire Src PyDecode PcModel CppFull CppSwap
+  Arith SpecAlign Views SpecLen WireFacts CppSwapFacts.
+Import ListNotations.
+Local Open Scope Z_scope.
+
+Theorem C09_swap_whole_message :
+  forall e t v pre post,
+    legal t = true -> PyDecode.is_comp t = true -> stiffness t <> Unlimited -> kfc_free t = true ->
+    wt t v = true -> len pre mod align t = 0 ->
+    cpp_swap e t (pre ++ wire (flip e) t v ++ post) (len pre)
+    = Some (pre ++ wire e t v ++ post, len pre + len (wire e t v)).
+Proof.
+  intros e t v pre post Hl Hc Hu Hk Hw Ha.
+  pose proof (cpp_swap_roundtrip e t Hl Hc Hu Hk v pre post Hw Ha) as H.
+  rewrite (layout_at_aligned t v (len pre) Ha) in H. unfold wire. rewrite H.
+  destruct (layout_lengths t v Hl Hw) as [L1 _]. rewrite (len_render e _ L1). reflexivity.
+Qed.
+Print Assumptions C09_swap_whole_message.
+
+(* the message alone in a buffer, at its start *)
+Corollary C09_swap_message :
+  forall e t v post,
+    legal t = true -> PyDecode.is_comp t = true -> stiffness t <> Unlimited -> kfc_free t = true -> wt t v = true ->
+    cpp_swap e t (wire (flip e) t v ++ post) 0 = Some (wire e t v ++ post, len (wire e t v)).
+Proof.
+  intros e t v post Hl Hc Hu Hk Hw.
+  pose proof (C09_swap_whole_message e t v [] post Hl Hc Hu Hk Hw) as H. cbn [app] in H. change (len (@nil Z)) with 0 in H.
+  rewrite H; [reflexivity|]. apply Z.mod_0_l. pose proof (align_ok t) as Hal. apply okal_pos in Hal. lia.
+Qed.
+Print Assumptions C09_swap_message.
+
+(* the hypothesis kfc_free is needed: the schema of the known finding KF-C, on which the model (as the compiled code)
+   returns offset 32 for a 24-byte message *)
+Definition kfc_schema : ty :=
+  TStruct [(FPlain, TScalar U8); (FBound 0%nat, TScalar U8); (FPlain, TScalar U64);
+           (FPlain, TScalar U8); (FBound 3%nat, TScalar U8); (FPlain, TScalar U8)].
+Definition kfc_value : value :=
+  VStruct [VInt 1; VList [VInt 1]; VInt 7; VInt 3; VList [VInt 3; VInt 4; VInt 5]; VInt 9].
+
+Theorem C09_kfc_witness :
+  legal kfc_schema = true /\ wt kfc_schema kfc_value = true /\ stiffness kfc_schema <> Unlimited /\
+  kfc_free kfc_schema = false /\
+  len (wire LE kfc_schema kfc_value) = 24 /\
+  (exists d, cpp_swap LE kfc_schema (wire BE kfc_schema kfc_value ++ repeat 165 64%nat) 0 = Some (d, 32)).
+Proof.
+  repeat split; try (vm_compute; congruence).
+  eexists. vm_compute. reflexivity.
+Qed.
+Print Assumptions C09_kfc_witness.
+
+(* non-vacuity: a struct with three parts, an optional and a union that meets every hypothesis *)
+Example C09_example :
+  let t := TStruct [(FPlain, TScalar U16); (FBound 0%nat, TScalar U32); (FOpt, TScalar U16);
+                    (FPlain, TScalar U8); (FBound 3%nat, TScalar U16);
+                    (FPlain, TUnion [(1, TScalar U16); (2, TScalar U64)])] in
+  let v := VStruct [VInt 2; VList [VInt 1; VInt 258]; VSome (VInt 772); VInt 1; VList [VInt 515]; VUnion 1 (VInt 5)] in
+  legal t = true /\ wt t v = true /\ stiffness t <> Unlimited /\ kfc_free t = true /\
+  cpp_swap LE t (wire BE t v ++ [165; 165]) 0 = Some (wire LE t v ++ [165; 165], len (wire LE t v)).
+Proof. repeat split; try (vm_compute; congruence). Qed.
